@@ -1,7 +1,367 @@
-(** C12 — affine maps. (statements follow) *)
-From Coq Require Import ZArith Reals Bool.
-From KV Require Import Scalar RInst Geom Affine AffineOps.
+(** C12 — Affine maps compose as documented and commute with evaluation.
+    Real instance of model/Affine.v (shared core) and model/AffineOps.v. Statements only;
+    proofs in proofs/C12_proofs.v and proofs/C12_arc_proofs.v.
+
+    Real instance: [x / 0 = 0] and every number is finite, so each theorem about code that divides
+    (inverse, reflect, TranslateScale::inverse) carries its non-zero guard explicitly.
+    Three methods of the pinned tree violate the property; for each the file states what the
+    property requires of the repaired model ([aff_pre_rotate_about], [aff_mul_arc], [ts_mul_rrect]) and
+    refutes the faithful model of the pinned code ([..._pinned], theorem [..._refuted]). *)
+From Coq Require Import ZArith Reals List Bool Lra.
+From KV Require Import Scalar RInst Geom Rect Curves Path Affine ShapeTypes AffineOps C12_proofs C12_arc_proofs.
+Import ListNotations.
 Local Open Scope R_scope.
 
-Theorem C12_placeholder : forall (m : Affine R) (p : Point R), aff_apply m p = aff_apply m p.
-Proof. reflexivity. Qed.
+(** * 1. The matrix algebra *)
+
+(** (A*B)*p = A*(B*p) *)
+Theorem C12_mul_assoc_point : forall (A B : Affine R) (p : Point R),
+  aff_apply (aff_mul A B) p = aff_apply A (aff_apply B p).
+Proof. exact mul_assoc_point. Qed.
+
+Theorem C12_mul_assoc : forall A B C : Affine R, aff_mul (aff_mul A B) C = aff_mul A (aff_mul B C).
+Proof. exact mul_assoc. Qed.
+
+Theorem C12_identity : forall (A : Affine R) (p : Point R),
+  aff_mul aff_identity A = A /\ aff_mul A aff_identity = A /\ aff_apply aff_identity p = p
+  /\ aff_IDENTITY = aff_identity (T := R).
+Proof. exact mul_identity. Qed.
+
+(** A * inverse(A) = inverse(A) * A = identity for non-singular A *)
+Theorem C12_inverse_right : forall A : Affine R,
+  aff_determinant A <> 0 -> aff_mul A (aff_inverse A) = aff_identity.
+Proof. exact inverse_right. Qed.
+Theorem C12_inverse_left : forall A : Affine R,
+  aff_determinant A <> 0 -> aff_mul (aff_inverse A) A = aff_identity.
+Proof. exact inverse_left. Qed.
+Theorem C12_inverse_point : forall (A : Affine R) (p : Point R),
+  aff_determinant A <> 0 ->
+  aff_apply (aff_inverse A) (aff_apply A p) = p /\ aff_apply A (aff_apply (aff_inverse A) p) = p.
+Proof. exact inverse_point. Qed.
+Example C12_ex_nonsingular : aff_determinant (mkAffine 1 2 3 4 5 6) <> 0.
+Proof. cbv [aff_determinant aa ab ac ad]. rs_unfold. lra. Qed.
+
+(** the determinant is multiplicative *)
+Theorem C12_det_mul : forall A B : Affine R,
+  aff_determinant (aff_mul A B) = aff_determinant A * aff_determinant B.
+Proof. exact det_mul. Qed.
+Theorem C12_det_inverse : forall A : Affine R,
+  aff_determinant A <> 0 -> aff_determinant (aff_inverse A) = / aff_determinant A.
+Proof. exact det_inverse. Qed.
+
+(** f64 * Affine scales every coefficient; the elementary maps act as documented *)
+Theorem C12_scalar_mul : forall (k : R) (A : Affine R),
+  aff_scalar_mul k A = mkAffine (k * aa A) (k * ab A) (k * ac A) (k * ad A) (k * ae A) (k * af A).
+Proof. exact scalar_mul_coeffs. Qed.
+Theorem C12_elementary_actions : forall (p : Point R) (s sx sy th kx ky : R) (t : Vec2 R),
+  aff_apply (aff_scale s) p = mkPoint (s * px p) (s * py p)
+  /\ aff_apply (aff_scale_non_uniform sx sy) p = mkPoint (sx * px p) (sy * py p)
+  /\ aff_apply (aff_translate t) p = mkPoint (px p + vx t) (py p + vy t)
+  /\ aff_apply (aff_rotate th) p = mkPoint (cos th * px p - sin th * py p) (sin th * px p + cos th * py p)
+  /\ aff_apply (aff_skew kx ky) p = mkPoint (px p + kx * py p) (ky * px p + py p)
+  /\ aff_apply aff_FLIP_Y p = mkPoint (px p) (- py p) /\ aff_apply aff_FLIP_X p = mkPoint (- px p) (py p).
+Proof. exact elementary_actions. Qed.
+
+(** * 2. Every pre_* method is [self * T], every then_* method is [T * self] *)
+
+Theorem C12_pre_rotate : forall (m : Affine R) (th : R), aff_pre_rotate m th = aff_mul m (aff_rotate th).
+Proof. exact pre_rotate_is_mul. Qed.
+Theorem C12_pre_scale : forall (m : Affine R) (s : R), aff_pre_scale m s = aff_mul m (aff_scale s).
+Proof. exact pre_scale_is_mul. Qed.
+Theorem C12_pre_scale_non_uniform : forall (m : Affine R) (sx sy : R),
+  aff_pre_scale_non_uniform m sx sy = aff_mul m (aff_scale_non_uniform sx sy).
+Proof. exact pre_scale_non_uniform_is_mul. Qed.
+Theorem C12_pre_translate : forall (m : Affine R) (t : Vec2 R), aff_pre_translate m t = aff_mul m (aff_translate t).
+Proof. exact pre_translate_is_mul. Qed.
+Theorem C12_then_rotate : forall (m : Affine R) (th : R), aff_then_rotate m th = aff_mul (aff_rotate th) m.
+Proof. exact then_rotate_is_mul. Qed.
+Theorem C12_then_rotate_about : forall (m : Affine R) (th : R) (c : Point R),
+  aff_then_rotate_about m th c = aff_mul (aff_rotate_about th c) m.
+Proof. exact then_rotate_about_is_mul. Qed.
+Theorem C12_then_scale : forall (m : Affine R) (s : R), aff_then_scale m s = aff_mul (aff_scale s) m.
+Proof. exact then_scale_is_mul. Qed.
+Theorem C12_then_scale_non_uniform : forall (m : Affine R) (sx sy : R),
+  aff_then_scale_non_uniform m sx sy = aff_mul (aff_scale_non_uniform sx sy) m.
+Proof. exact then_scale_non_uniform_is_mul. Qed.
+Theorem C12_then_scale_about : forall (m : Affine R) (s : R) (c : Point R),
+  aff_then_scale_about m s c = aff_mul (aff_scale_about s c) m.
+Proof. exact then_scale_about_is_mul. Qed.
+(** then_translate is written as an in-place update of the translation; it is the product all the same *)
+Theorem C12_then_translate : forall (m : Affine R) (t : Vec2 R),
+  aff_then_translate m t = aff_mul (aff_translate t) m.
+Proof. exact then_translate_is_mul. Qed.
+
+(** pre_rotate_about as documented ([aff_pre_rotate_about], the model the correspondence accepts
+    once proposed_fixes/C12-pre-rotate-about.diff is applied) ... *)
+Theorem C12_pre_rotate_about : forall (m : Affine R) (th : R) (c : Point R),
+  aff_pre_rotate_about m th c = aff_mul m (aff_rotate_about th c).
+Proof. exact pre_rotate_about_is_mul. Qed.
+(** ... and as written on the pinned tree: it is then_rotate_about, which is not [self * T] *)
+Theorem C12_pre_rotate_about_pinned_is_then : forall (m : Affine R) (th : R) (c : Point R),
+  aff_pre_rotate_about_pinned m th c = aff_then_rotate_about m th c.
+Proof. exact pre_rotate_about_pinned_is_then. Qed.
+Theorem C12_pre_rotate_about_pinned_refuted :
+  exists (m : Affine R) (th : R) (c : Point R),
+    aff_pre_rotate_about_pinned m th c <> aff_mul m (aff_rotate_about th c).
+Proof. exact pre_rotate_about_pinned_refuted. Qed.
+
+(** * 3. scale/rotate/reflect-about maps fix their centre or axis *)
+
+Theorem C12_scale_about_conjugate : forall (s : R) (c : Point R),
+  aff_scale_about s c
+  = aff_mul (aff_translate (to_vec2 c)) (aff_mul (aff_scale s) (aff_translate (v_neg (to_vec2 c)))).
+Proof. exact scale_about_is_conjugate. Qed.
+Theorem C12_rotate_about_conjugate : forall (th : R) (c : Point R),
+  aff_rotate_about th c
+  = aff_mul (aff_translate (to_vec2 c)) (aff_mul (aff_rotate th) (aff_translate (v_neg (to_vec2 c)))).
+Proof. exact rotate_about_is_conjugate. Qed.
+
+Theorem C12_scale_about_fixes_centre : forall (s : R) (c : Point R), aff_apply (aff_scale_about s c) c = c.
+Proof. exact scale_about_fixes_centre. Qed.
+Theorem C12_scale_about_action : forall (s : R) (c p : Point R),
+  aff_apply (aff_scale_about s c) p = mkPoint (px c + s * (px p - px c)) (py c + s * (py p - py c)).
+Proof. exact scale_about_action. Qed.
+Theorem C12_rotate_about_fixes_centre : forall (th : R) (c : Point R), aff_apply (aff_rotate_about th c) c = c.
+Proof. exact rotate_about_fixes_centre. Qed.
+Theorem C12_rotate_about_action : forall (th : R) (c p : Point R),
+  aff_apply (aff_rotate_about th c) p
+  = mkPoint (px c + (cos th * (px p - px c) - sin th * (py p - py c)))
+            (py c + (sin th * (px p - px c) + cos th * (py p - py c))).
+Proof. exact rotate_about_action. Qed.
+Theorem C12_rotate_det : forall (th : R) (c : Point R),
+  aff_determinant (aff_rotate th) = 1 /\ aff_determinant (aff_rotate_about th c) = 1.
+Proof. exact rotate_det. Qed.
+Theorem C12_rotate_about_isometry : forall (th : R) (c p : Point R),
+  pt_distance_squared (aff_apply (aff_rotate_about th c) p) c = pt_distance_squared p c.
+Proof. exact rotate_about_isometry. Qed.
+
+(** reflect (direction non-zero): determinant -1, an involution, fixes every point of its axis ... *)
+Theorem C12_reflect : forall (p : Point R) (d : Vec2 R),
+  vx d * vx d + vy d * vy d <> 0 ->
+  aff_determinant (aff_reflect p d) = -1
+  /\ aff_mul (aff_reflect p d) (aff_reflect p d) = aff_identity
+  /\ (forall t, aff_apply (aff_reflect p d) (mkPoint (px p + t * vx d) (py p + t * vy d))
+                = mkPoint (px p + t * vx d) (py p + t * vy d)).
+Proof. exact reflect_props. Qed.
+(** ... and sends the point at signed distance k from the axis to the one at distance -k *)
+Theorem C12_reflect_mirror : forall (p : Point R) (d : Vec2 R) (t k : R),
+  vx d * vx d + vy d * vy d <> 0 ->
+  let h := sqrt (vy d * vy d + - vx d * - vx d) in
+  let nx := vy d * (1 / h) in let ny := - vx d * (1 / h) in
+  aff_apply (aff_reflect p d) (mkPoint (px p + t * vx d + k * nx) (py p + t * vy d + k * ny))
+  = mkPoint (px p + t * vx d - k * nx) (py p + t * vy d - k * ny).
+Proof. exact reflect_mirror. Qed.
+Example C12_ex_reflect_guard : vx (mkVec2 1 1) * vx (mkVec2 1 1) + vy (mkVec2 1 1) * vy (mkVec2 1 1) <> 0.
+Proof. cbn. lra. Qed.
+
+Theorem C12_map_unit_square : forall r : Rect R,
+  let m := aff_map_unit_square r in
+  aff_apply m (mkPoint 0 0) = mkPoint (rx0 r) (ry0 r) /\ aff_apply m (mkPoint 1 0) = mkPoint (rx1 r) (ry0 r)
+  /\ aff_apply m (mkPoint 0 1) = mkPoint (rx0 r) (ry1 r) /\ aff_apply m (mkPoint 1 1) = mkPoint (rx1 r) (ry1 r).
+Proof. exact map_unit_square_corners. Qed.
+Theorem C12_transform_rect_bbox_contains : forall (m : Affine R) (r : Rect R) (p : Point R),
+  rx0 r <= px p <= rx1 r -> ry0 r <= py p <= ry1 r ->
+  let b := aff_transform_rect_bbox m r in let q := aff_apply m p in
+  rx0 b <= px q <= rx1 b /\ ry0 b <= py q <= ry1 b.
+Proof. exact transform_rect_bbox_contains. Qed.
+
+(** * 4. Transforming then evaluating = evaluating then transforming *)
+
+Theorem C12_line_eval : forall (A : Affine R) (l : Line R) (t : R),
+  line_eval (aff_mul_line A l) t = aff_apply A (line_eval l t).
+Proof. exact line_eval_commutes. Qed.
+Theorem C12_quad_eval : forall (A : Affine R) (q : QuadBez R) (t : R),
+  quad_eval (aff_mul_quad A q) t = aff_apply A (quad_eval q t).
+Proof. exact quad_eval_commutes. Qed.
+Theorem C12_cubic_eval : forall (A : Affine R) (c : CubicBez R) (t : R),
+  cubic_eval (aff_mul_cubic A c) t = aff_apply A (cubic_eval c t).
+Proof. exact cubic_eval_commutes. Qed.
+Theorem C12_seg_eval : forall (A : Affine R) (s : PathSeg R) (t : R),
+  seg_eval (aff_mul_seg A s) t = aff_apply A (seg_eval s t).
+Proof. exact seg_eval_commutes. Qed.
+Theorem C12_seg_endpoints : forall (A : Affine R) (s : PathSeg R),
+  seg_start (aff_mul_seg A s) = aff_apply A (seg_start s) /\ seg_end (aff_mul_seg A s) = aff_apply A (seg_end s).
+Proof. exact seg_endpoints_commute. Qed.
+Theorem C12_el_end : forall (A : Affine R) (e : PathEl R),
+  el_end (aff_mul_el A e) = option_map (aff_apply A) (el_end e).
+Proof. exact el_end_commutes. Qed.
+
+(** paths: for non-singular A the segments of the image path ([Segments::next] run on the mapped
+    elements) are exactly the images of the segments, for every element list (including the
+    ones on which the iterator panics: [None] on both sides) *)
+Theorem C12_path_segments : forall (A : Affine R) (els : list (PathEl R)),
+  aff_determinant A <> 0 ->
+  segments (aff_mul_path A els) = option_map (map (aff_mul_seg A)) (segments els).
+Proof. exact path_segments_commute. Qed.
+Theorem C12_path_eval : forall (A : Affine R) (els : list (PathEl R)) (segs : list (PathSeg R)) (i : nat) (s : PathSeg R) (t : R),
+  aff_determinant A <> 0 ->
+  segments els = Some segs -> nth_error segs i = Some s ->
+  exists s', option_map (fun l => nth_error l i) (segments (aff_mul_path A els)) = Some (Some s')
+             /\ seg_eval s' t = aff_apply A (seg_eval s t).
+Proof. exact path_eval_commutes. Qed.
+Example C12_ex_path : segments (aff_mul_path (mkAffine 0 1 (-1) 0 2 3)
+                                  [MoveTo (mkPoint 0 0); LineTo (mkPoint 1 0); QuadTo (mkPoint 1 1) (mkPoint 0 1); ClosePath])
+  = option_map (map (aff_mul_seg (mkAffine 0 1 (-1) 0 2 3)))
+      (segments [MoveTo (mkPoint 0 0); LineTo (mkPoint 1 0); QuadTo (mkPoint 1 1) (mkPoint 0 1); ClosePath]).
+Proof. apply path_segments_commute. cbv [aff_determinant aa ab ac ad]. rs_unfold. lra. Qed.
+
+(** * 5. Circles, ellipses *)
+
+(** [Affine * Ellipse]: the inner map is the product, so every point of the image ellipse is
+    the image of the corresponding point *)
+Theorem C12_ellipse_image : forall (A : Affine R) (e : Ellipse R) (th : R),
+  el_inner (aff_mul_ellipse A e) = aff_mul A (el_inner e)
+  /\ ellipse_point (aff_mul_ellipse A e) th = aff_apply A (ellipse_point e th).
+Proof. exact ellipse_image. Qed.
+(** [Ellipse::new(c, radii, rot)] is c + R(rot) (|rx| cos th, |ry| sin th) *)
+Theorem C12_ellipse_new : forall (c : Point R) (radii : Vec2 R) (rot th : R),
+  ellipse_point (ellipse_new c radii rot) th
+  = pt_add_v c (arc_sample_ellipse (mkVec2 (Rabs (vx radii)) (Rabs (vy radii))) rot th)
+  /\ ellipse_center (ellipse_new c radii rot) = c.
+Proof. exact ellipse_new_curve. Qed.
+(** [Affine * Circle] *)
+Theorem C12_circle_image : forall (A : Affine R) (c : Circle R) (th : R),
+  0 <= ci_radius c -> ellipse_point (aff_mul_circle A c) th = aff_apply A (circle_point c th).
+Proof. exact circle_image. Qed.
+Theorem C12_circle_image_any_radius : forall (A : Affine R) (c : Circle R) (th : R),
+  ellipse_point (aff_mul_circle A c) th
+  = aff_apply A (circle_point (mkCircle (ci_center c) (Rabs (ci_radius c))) th).
+Proof. exact circle_image_abs. Qed.
+
+(** svd: rx >= ry >= 0, rx^2 + ry^2 = a^2+b^2+c^2+d^2, rx ry = |det| ... *)
+Theorem C12_svd_invariants : forall m : Affine R,
+  let r := fst (aff_svd m) in
+  0 <= vy r <= vx r
+  /\ vx r * vx r + vy r * vy r = aa m * aa m + ab m * ab m + ac m * ac m + ad m * ad m
+  /\ vx r * vy r = Rabs (aff_determinant m).
+Proof. exact svd_invariants. Qed.
+(** ... and R(phi) diag(rx^2, ry^2) R(phi)^T = M M^T for the linear part M, i.e. (radii, phi)
+    are the semi-axes and the rotation of the image of the unit circle *)
+Theorem C12_svd_decomposition : forall m : Affine R,
+  let r := fst (aff_svd m) in let phi := snd (aff_svd m) in
+  let C := cos phi in let S := sin phi in
+  aa m * aa m + ac m * ac m = vx r * vx r * (C * C) + vy r * vy r * (S * S)
+  /\ ab m * ab m + ad m * ad m = vx r * vx r * (S * S) + vy r * vy r * (C * C)
+  /\ aa m * ab m + ac m * ad m = (vx r * vx r - vy r * vy r) * (S * C).
+Proof. exact svd_decomposition. Qed.
+
+(** hence (centre, radii, rotation) as reported by [radii_and_rotation] describe the ellipse through the
+    image points: for a non-singular inner map every point of the curve satisfies the implicit equation
+    (x'/rx)^2 + (y'/ry)^2 = 1 in the reported frame (this covers [Affine * Circle], [Affine * Ellipse]
+    and [Ellipse::new]) *)
+Theorem C12_ellipse_implicit : forall (m : Affine R) (th : R),
+  aff_determinant m <> 0 ->
+  let r := fst (aff_svd m) in let phi := snd (aff_svd m) in
+  let p := ellipse_point (mkEllipse m) th in
+  let dx := px p - ae m in let dy := py p - af m in
+  let lx := cos phi * dx + sin phi * dy in let ly := - sin phi * dx + cos phi * dy in
+  (lx / vx r) * (lx / vx r) + (ly / vy r) * (ly / vy r) = 1.
+Proof. exact ellipse_implicit. Qed.
+(** the radii reported for [Ellipse::new(c, (rx, ry), rot)] are the larger and the smaller of |rx|, |ry| *)
+Theorem C12_ellipse_new_radii : forall (c : Point R) (radii : Vec2 R) (rot : R),
+  let r := fst (ellipse_radii_and_rotation (ellipse_new c radii rot)) in
+  vx r = Rmax (Rabs (vx radii)) (Rabs (vy radii)) /\ vy r = Rmin (Rabs (vx radii)) (Rabs (vy radii)).
+Proof. exact ellipse_new_radii. Qed.
+
+(** taking the minor radius as |det| / major (proposed_fixes/C10-svd-minor-radius.diff, which
+    cures a floating-point cancellation) is the same function over the reals *)
+Theorem C12_svd_variants_agree : forall m : Affine R, aff_svd_det m = aff_svd m.
+Proof. exact svd_variants_agree. Qed.
+
+(** * 6. Arcs *)
+
+(** The image of an arc (as the property requires it, [aff_mul_arc], the model the correspondence
+    accepts once proposed_fixes/C12-affine-arc.diff is applied): for every non-singular map and
+    every arc with positive radii — any x_rotation, start and sweep — the image arc at parameter t
+    is the image of the arc at parameter t, for every real t (so: same points, same direction). *)
+Theorem C12_arc_image : forall (A : Affine R) (arc : Arc R) (t : R),
+  aff_determinant A <> 0 -> 0 < vx (arc_radii arc) -> 0 < vy (arc_radii arc) ->
+  arc_eval (aff_mul_arc A arc) t = aff_apply A (arc_eval arc t).
+Proof. exact arc_image. Qed.
+Example C12_ex_arc_hyps :
+  aff_determinant (aff_FLIP_Y (T := R)) <> 0
+  /\ 0 < vx (arc_radii (mkArc (mkPoint 0 0) (mkVec2 2 1) 0 (PI / 2) 4))
+  /\ 0 < vy (arc_radii (mkArc (mkPoint 0 0) (mkVec2 2 1) 0 (PI / 2) 4)).
+Proof. cbv [aff_determinant aff_FLIP_Y aa ab ac ad arc_radii vx vy]. rs_unfold. repeat split; lra. Qed.
+
+(** The pinned code ([aff_mul_arc_pinned]: start and sweep angle copied) violates this:
+    the identity map moves the start point of an arc with x_rotation = pi, and a reflection
+    keeps the direction of traversal. *)
+Theorem C12_arc_image_pinned_refuted :
+  (exists arc : Arc R,
+     0 < vx (arc_radii arc) /\ 0 < vy (arc_radii arc)
+     /\ arc_eval (aff_mul_arc_pinned aff_identity arc) 0 <> aff_apply aff_identity (arc_eval arc 0))
+  /\ (exists arc : Arc R,
+        0 < vx (arc_radii arc) /\ 0 < vy (arc_radii arc) /\ aff_determinant (aff_FLIP_Y (T := R)) <> 0
+        /\ arc_eval (aff_mul_arc_pinned aff_FLIP_Y arc) 1 <> aff_apply aff_FLIP_Y (arc_eval arc 1)).
+Proof. exact arc_pinned_refuted. Qed.
+(** the pinned code is right exactly where re-deriving the angles changes nothing *)
+Theorem C12_arc_pinned_vs_repaired : forall (A : Affine R) (arc : Arc R),
+  arc_start_angle (aff_mul_arc A arc) = arc_start_angle arc ->
+  arc_sweep_angle (aff_mul_arc A arc) = arc_sweep_angle arc ->
+  aff_mul_arc_pinned A arc = aff_mul_arc A arc.
+Proof. exact arc_pinned_vs_repaired. Qed.
+
+(** * 7. A TranslateScale behaves identically to the affine map it converts to
+    (all scales, negative ones included; [inverse] needs scale <> 0) *)
+
+Theorem C12_ts_point : forall (ts : TranslateScale R) (p : Point R),
+  ts_apply ts p = aff_apply (ts_to_affine ts) p.
+Proof. exact ts_apply_as_affine. Qed.
+Theorem C12_ts_mul : forall a b : TranslateScale R,
+  ts_to_affine (ts_mul a b) = aff_mul (ts_to_affine a) (ts_to_affine b).
+Proof. exact ts_mul_as_affine. Qed.
+Theorem C12_ts_inverse : forall ts : TranslateScale R,
+  ts_scale ts <> 0 ->
+  ts_to_affine (ts_inverse ts) = aff_inverse (ts_to_affine ts)
+  /\ ts_mul ts (ts_inverse ts) = ts_default /\ ts_mul (ts_inverse ts) ts = ts_default.
+Proof. exact ts_inverse_all. Qed.
+Theorem C12_ts_misc : forall (ts : TranslateScale R) (k : R) (v : Vec2 R) (c : Point R),
+  ts_to_affine (ts_scalar_mul k ts) = aff_mul (aff_scale k) (ts_to_affine ts)
+  /\ ts_to_affine (ts_add_v ts v) = aff_then_translate (ts_to_affine ts) v
+  /\ ts_to_affine (ts_sub_v ts v) = aff_then_translate (ts_to_affine ts) (v_neg v)
+  /\ ts_to_affine (ts_from_scale_about k c) = aff_scale_about k c
+  /\ ts_to_affine (ts_new_scale k) = aff_scale k
+  /\ ts_to_affine (ts_new_translate v) = aff_translate v
+  /\ ts_to_affine ts_default = aff_identity.
+Proof. exact ts_misc_as_affine. Qed.
+Theorem C12_ts_curves : forall ts : TranslateScale R,
+  (forall l, ts_mul_line ts l = aff_mul_line (ts_to_affine ts) l)
+  /\ (forall q, ts_mul_quad ts q = aff_mul_quad (ts_to_affine ts) q)
+  /\ (forall c, ts_mul_cubic ts c = aff_mul_cubic (ts_to_affine ts) c)
+  /\ (forall s, ts_mul_seg ts s = aff_mul_seg (ts_to_affine ts) s)
+  /\ (forall e, ts_mul_el ts e = aff_mul_el (ts_to_affine ts) e)
+  /\ (forall els, ts_mul_path ts els = aff_mul_path (ts_to_affine ts) els).
+Proof. exact ts_curves_as_affine. Qed.
+(** rectangles: the normalised image rectangle = the bounding box of the affine image *)
+Theorem C12_ts_rect : forall (ts : TranslateScale R) (r : Rect R),
+  ts_mul_rect ts r = aff_transform_rect_bbox (ts_to_affine ts) r.
+Proof. exact ts_rect_as_affine. Qed.
+(** circles: angle by angle the image of the circle's point — also for negative scales, where the
+    radius of the result is negative — and the same curve as the ellipse [Affine * Circle] *)
+Theorem C12_ts_circle : forall (ts : TranslateScale R) (c : Circle R) (th : R),
+  circle_point (ts_mul_circle ts c) th = aff_apply (ts_to_affine ts) (circle_point c th)
+  /\ (0 <= ci_radius c ->
+      circle_point (ts_mul_circle ts c) th = ellipse_point (aff_mul_circle (ts_to_affine ts) c) th).
+Proof. exact ts_circle_all. Qed.
+
+(** rounded rectangles (as the property requires, [ts_mul_rrect], accepted by the correspondence
+    once proposed_fixes/C12-translate-scale-rounded-rect.diff is applied): the rectangle is the image
+    rectangle, and every corner takes its radius, scaled by |scale| and clamped as
+    [RoundedRect::from_rect] does, to its image corner *)
+Theorem C12_ts_rounded_rect : forall (ts : TranslateScale R) (rr : RoundedRect R) (p : Point R) (r : R),
+  rrect_wf rr -> In (p, r) (rrect_corners rr) ->
+  rr_rect (ts_mul_rrect ts rr) = ts_mul_rect ts (rr_rect rr)
+  /\ In (aff_apply (ts_to_affine ts) p, Rmin (Rabs (ts_scale ts) * r) (ts_radius_limit ts rr))
+        (rrect_corners (ts_mul_rrect ts rr)).
+Proof. exact ts_rrect_corners. Qed.
+Example C12_ex_rrect_wf : rrect_wf (mkRoundedRect (mkRect 0 0 10 10) (mkRadii 1 2 3 4)).
+Proof. unfold rrect_wf. cbn. lra. Qed.
+(** the pinned code ([ts_mul_rrect_pinned]) leaves every radius at its corner, which is wrong for a
+    negative scale (a half turn) *)
+Theorem C12_ts_rounded_rect_pinned_refuted :
+  exists (ts : TranslateScale R) (rr : RoundedRect R) (p : Point R) (r : R),
+    rrect_wf rr /\ In (p, r) (rrect_corners rr)
+    /\ ~ In (aff_apply (ts_to_affine ts) p, Rmin (Rabs (ts_scale ts) * r) (ts_radius_limit ts rr))
+            (rrect_corners (ts_mul_rrect_pinned ts rr)).
+Proof. exact ts_rrect_pinned_refuted. Qed.
